@@ -398,6 +398,43 @@ func runC08(c *Ctx) {
 			c.count("account_token_with_respelled_members")
 		}
 	}
+	// ---------- ... or whose signing_keys list holds entries that are no keys (a JSON null - the library's own encoder
+	// writes one for a scope variable that holds a nil pointer -, an empty object): they name no key, and a claim that
+	// names no issuer (built, not yet encoded) is signed by nobody
+	for _, listJSON := range []string{`[K1,null]`, `[null,K1]`, `[null]`, `[K1,null,null]`, `[K1,{"kind":"user_scope","key":K2,"role":"r","template":{}},null]`, `[]`, `[K1]`} {
+		lj := strings.NewReplacer("K1", `"`+K1+`"`, "K2", `"`+K2+`"`).Replace(listJSON)
+		pj := fmt.Sprintf(`{"iat":1700000000,"iss":%q,"jti":"x","sub":%q,"nats":{"signing_keys":%s,"type":"account","version":2}}`, A, A, lj)
+		ft := forge(hdrV2, pj, "v2", &signer{kp: akp, pub: A, role: "account"})
+		dac, err := jwt.DecodeAccountClaims(ft.Token)
+		c.sum.Evaluations++
+		c.sum.ImplChecks++
+		inp := map[string]interface{}{"entity": "account", "signing_keys_json": listJSON}
+		if err != nil {
+			c.count("account_token_with_null_key_entries_refused")
+			continue
+		}
+		var listed []string
+		if strings.Contains(listJSON, "K1") {
+			listed = append(listed, K1)
+		}
+		if strings.Contains(listJSON, "K2") {
+			listed = append(listed, K2)
+		}
+		for _, iss := range []string{"", K1, K2, AX, "null"} {
+			for _, kind := range []string{"user", "activation"} {
+				got, want := dac.DidSign(mkClaim(kind, iss, U, A)), contains(listed, iss)
+				if got != want {
+					inp["issuer"], inp["kind"], inp["impl"], inp["spec"], inp["keys"] = nameOf(iss, A, K1, K2, AX, B), kind, got, want, dac.SigningKeys.Keys()
+					c.violation("account DidSign differs from the trust rule for an account decoded from a token whose signing_keys list holds entries that are no keys", inp)
+				}
+			}
+		}
+		if dac.SigningKeys.Contains("") {
+			inp["keys"] = dac.SigningKeys.Keys()
+			c.violation("an account decoded from a token whose signing_keys list holds a null lists the empty text as a signing key", inp)
+		}
+		c.count("account_token_with_null_key_entries")
+	}
 	// ---------- the answer follows the key lists AS THEY ARE NOW: query, rotate keys (same number of keys), query again
 	{
 		oc := jwt.NewOperatorClaims(O)
